@@ -91,8 +91,21 @@ def run(ctx):
     run_case(ctx, ser(dict(kind="pair", label="disjoint", A=seg((F(0), F(0)), (F(1), F(1))), B=seg((F(5), F(0)), (F(6), F(3))))))
     run_case(ctx, ser(dict(kind="pair", label="cross", A=seg((F(0), F(0)), (F(2), F(2))), B=seg((F(0), F(2)), (F(2), F(0))))))
     for i in range(budget(ctx, 70, 900)):
-        label = rng.choice(["mixed", "mixed", "farboxes", "nearboxes", "zigzag", "zigzag"])
+        label = rng.choice(["mixed", "mixed", "farboxes", "nearboxes", "zigzag", "zigzag", "doublepoint"])
         na, nb = rng.randint(1, 3), rng.randint(1, 3)
+        if label == "doublepoint":
+            # B passes twice through one point (bow-tie, crossing inside two of its segments); A crosses it there transversally:
+            # two meeting pairs that share the parameter of A
+            cx, cy = F(rng.randint(-4, 4), 2), F(rng.randint(-4, 4), 2)
+            h = F(rng.randint(2, 6), 2)
+            B = dict(U=[F(0), F(0), F(1, 3), F(2, 3), F(1), F(1)],
+                     P=[(cx - h, cy - h), (cx + h, cy + h), (cx + h, cy - h), (cx - h, cy + h)], W=None)
+            dx = F(rng.randint(1, 3), 4) * rng.choice([1, -1])
+            A = dict(U=[F(0), F(0), F(1), F(1)], P=[(cx - dx, cy - 2 * h), (cx + dx, cy + 2 * h)], W=None)
+            if rng.random() < 0.5:
+                A, B = B, A
+            run_case(ctx, ser(dict(kind="pair", label=label, A=A, B=B)))
+            continue
         if label == "zigzag":
             # A zigzags across a nearly horizontal B: one transversal crossing per segment of A
             na = rng.randint(1, 4)
